@@ -60,6 +60,7 @@ def run(ctx):
             + [([[n, 0] for n in s], 1, 300 if not q else 25) for s in big] \
             + [([["walkA", 0], ["walkA", 1]], 2, 200 if not q else 30), ([["get", 0], ["bulkA", 1], ["set", 0]], 2, 200 if not q else 30),
                ([["get", 1], ["get", 0]], 2, 50)]
+        plans.append(([["mget150", 0], ["get", 0], ["set", 0]], 1, 30 if q else 200))      # a multiget large enough for an implementation to split it
         for ops, clients, limit in plans:
             solo, ex = prep(ops, clients)
             word = [k for k, n in ex.items() for _ in range(n)]
